@@ -76,13 +76,13 @@ def runOps (c : Cfg) : Nat → Tbl Nat → List (Sum Nat (Op Nat)) → List Json
     let r := c.step now op t
     runOps c now r.1 rest (resJson c.q r.2 :: acc)
 
-/-- Every physical record, `(id, deadline - now)` in ms rounded up to `q`, sorted by id. -/
+/-- Every physical record, `(id, deadline - now [ms, rounded up to q], state)`, sorted by id. -/
 def dumpJson (c : Cfg) (now : Nat) (t : Tbl Nat) : Json :=
   let rows := (t.map (fun (p : Nat × Rec Nat) =>
     let rel : Int := if c.sqlite then ((p.2.deadline : Int) - ((now / 1000 : Nat) : Int)) * 1000
       else ceilMul c.q ((p.2.deadline : Int) - (now : Int))
-    (p.1, rel))).mergeSort (fun a b => a.1 ≤ b.1)
-  Json.arr (rows.map (fun p => Json.arr #[jnat p.1, jint p.2])).toArray
+    (p.1, rel, p.2.state))).mergeSort (fun a b => a.1 ≤ b.1)
+  Json.arr (rows.map (fun p => Json.arr #[jnat p.1, jint p.2.1, jnat p.2.2])).toArray
 
 def opsOf (j : Json) (k : String) : Option (List (Sum Nat (Op Nat))) :=
   match getArr? j k with
